@@ -83,6 +83,7 @@ Definition dec_rev (o : zs) : option (Z * rev) :=
   | t :: 2 :: d :: _ => Some (t, RSetDeadline d)
   | t :: 3 :: id :: _ => Some (t, RArrive id)
   | t :: 4 :: _ => Some (t, RStartRead)
+  | t :: 5 :: _ => Some (t, RStartRead)   (* a read into an empty slice, scripted only while the deadline has passed *)
   | _ => None
   end.
 
